@@ -442,9 +442,13 @@ func (g *disGen) numText() string {
 	switch k := rng.Intn(20); {
 	case k < 14:
 		n = g.nums[rng.Intn(len(g.nums))]
-	case k < 16: // not in the table
+	case k < 15: // not in the table
 		n = []int{100000, 335 + rng.Intn(80), 1 << 20, 0x7fffffff, 4096 + rng.Intn(100)}[rng.Intn(5)]
 		g.tag("num:unknown")
+	case k < 16: // a table number with extra high bits: x32 bit, sign bit of 32 bits, bit 32, 16-bit wrap
+		base := g.nums[rng.Intn(len(g.nums))]
+		n = []int{base | 0x40000000, base | 0x80000000, base + 1<<32, base | 0x10000, base | 0x20000000, base + 1<<31 + 1<<30}[rng.Intn(6)]
+		g.tag("num:table-number-with-high-bits")
 	case k < 17:
 		n = 0
 	default:
